@@ -139,7 +139,7 @@ Definition all_counterexample (m : env) (e : expr) : option (list (string * val)
   | _ => None
   end.
 
-Definition line_is_true (c : xcase) (m : env) (l : log) (pyinner : list (nat * val)) (k : string) (v : val) : bool :=
+Definition line_is_true (c : xcase) (m : env) (l : log) (pyinner rclog : list (nat * val)) (k : string) (v : val) : bool :=
   (* an argument of the call, under its own name *)
   existsb (fun p => String.eqb (fst p) k && val_eqb (snd p) v) (x_kwargs c) ||
   existsb (fun i =>
@@ -153,10 +153,13 @@ Definition line_is_true (c : xcase) (m : env) (l : log) (pyinner : list (nat * v
         if is_inner c i
         then
           (* inside a comprehension scope: one of the values CPython computed for the node; where CPython never
-             evaluated the node, the value of the node taken on its own (the documented speculative visit, D12b) *)
+             evaluated the node (an empty iteration), what the speculative visit of the part records for it - as the
+             model of the re-evaluator has it - or the value of the node taken on its own (the documented limitation,
+             NOTE ABOUT PLACEHOLDERS; its harmful side is D12b) *)
           if existsb (fun p => Nat.eqb (fst p) i) pyinner
           then existsb (fun p => Nat.eqb (fst p) i && val_eqb (snd p) v) pyinner
-          else match comp_value py_prims (node c i) m with Ok w => val_eqb w v | Err _ => false end
+          else in_log rclog i v
+               || match comp_value py_prims (node c i) m with Ok w => val_eqb w v | Err _ => false end
         else in_log l i v
     end) (nodes_with_text c k) ||
   (* the target of an assignment expression, shown with the value assigned *)
@@ -189,7 +192,9 @@ Definition spec_C06_gen (exempt_fstring : bool) (c : xcase) (o : xobs) : bool :=
   match py_run c with
   | Err _ => true
   | Ok (_, (m, l)) =>
-      forallb (fun p => line_is_true c m l (o_pyinner o) (fst p) (snd p)) (o_lines o) &&
+      forallb (fun p => line_is_true c m l (o_pyinner o)
+                                     (match rc_run c with Ok (_, (_, recorded)) => recorded | Err _ => [] end)
+                                     (fst p) (snd p)) (o_lines o) &&
       forallb (fun p => negb (representable (snd p)) || line_has (o_lines o) (fst p))
               (selected_kwargs (x_kwargs c) (x_cond_params c)) &&
       (negb (no_name_is_none c) ||
